@@ -76,11 +76,23 @@ def aShut (s : St) (i : Nat) (e : Ev) : Option St :=
   | .ret, "ret" => some s
   | _, _ => none
 
-def astep (s : St) (e : Ev) : Option St :=
+def astepCore (s : St) (e : Ev) : Option St :=
   match e.role with
   | .W => aWorker s e
   | .P p => aProd s p e
   | .F f => aFlush s f e
   | .S i => aShut s i e
+
+/-- a load of `is_shutdown` / `force_flush_pending_sequence` / `force_flush_notified_sequence` that returns exactly the model's
+    current value of the variable: if the model's program counter for that thread does not expect it, it is a stutter - a
+    thread that reads a shared variable once more than the model says (a diagnostic, a re-check) changes nothing for any
+    other thread, and what it does with the value shows in its later events -/
+def redundantLoad (s : St) (e : Ev) : Bool :=
+  (e.kind == "isd" && e.b == s.isShutdown) || (e.kind == "pend" && e.v == s.pending) || (e.kind == "not" && e.v == s.notified)
+
+def astep (s : St) (e : Ev) : Option St :=
+  match astepCore s e with
+  | some s' => some s'
+  | none => if redundantLoad s e then some s else none
 
 end Otel.Batch
